@@ -26,6 +26,8 @@ package cache
 
 import (
 	"fmt"
+	"os"
+	"strings"
 	"sync"
 	"sync/atomic"
 	"testing"
@@ -143,7 +145,11 @@ func c18CheckHistory(c c18HCase) h.Result {
 	if !c18HValid(c) {
 		return r.Class("invalid-case").Result()
 	}
-	reps := C18Reps(150, 3000)
+	reps := 150
+	if !strings.HasPrefix(os.Getenv("VERIF_CONFIG"), "race") {
+		reps = 1000 // uninstrumented code is ~10x faster
+	}
+	reps = C18Reps(reps, 20*reps)
 	rep, viol := C18Spawn("history", "TestC18ChildHistory", c, c.Procs, reps)
 	r.Class(fmt.Sprintf("cap:%d", c.Cap), fmt.Sprintf("procs:%d", c.Procs), fmt.Sprintf("goroutines:%d", len(c.G)))
 	if viol != nil {
